@@ -269,7 +269,11 @@ class Check:
         chunks = [cases[i:i + chunk] for i in range(0, len(cases), chunk)]
         verdicts: dict = {}
 
-        arith = ("Overflow when computing", "out of the range of", "Attempted to apply the operator overridden")
+        # evaluation errors that only an OBSERVED value can cause (the specification's own values are bounded by the generators and
+        # every batch evaluates on the unchanged tree): numbers that do not fit, arrays that do not have the declared shape
+        arith = ("Overflow when computing", "out of the range of", "Attempted to apply the operator overridden",
+                 "Attempted to access index", "which is not in the domain of the function", "Attempted to select nonexistent field",
+                 "Attempted to access nonexistent field", "Attempted to apply function to argument")
 
         def run_batch(ch, sub):
             sub.mkdir(parents=True, exist_ok=True)
@@ -283,7 +287,8 @@ class Check:
             """A batch on which TLC stopped with an ARITHMETIC error: the observed values of one case cannot be held by the
             specification (a NaN / not-finite / absurdly large number where every specified outcome is a small number - on the
             unchanged tree no batch does this).  The batch is split until the cases are isolated; such a case gets the verdict
-            `output_not_representable`, the others their ordinary verdicts."""
+            `output_not_representable`, the others their ordinary verdicts.  The same is done when an observed array does not have the
+            shape the case declares (index / domain errors)."""
             res = run_batch(ch, sub)
             out = {}
             if res.ok:
